@@ -7,6 +7,7 @@ from the real crate; `tools/compare.py` diffs the two streams.
 usage: driver <debug|release>  < ops  > trace
 -/
 import Micromap.Model.Sys
+import Micromap.Model.StdIter
 
 open Micromap
 
@@ -609,6 +610,81 @@ def diffRefStep (E : Env DKey DVal DKey) (sys : Sys DKey DVal DKey) (i o : Nat) 
         | .ok l s3 => .ok (RV.castU (.list l)) { sys0 with w := sys0.w.mergeUnit s3.w }
 
 
+/-! ### `nth(k)`, `last()`, `count()` on drains / consuming iterators: `Model/StdIter.lean`
+
+Lines whose take is `tK` / `tM` (`nth(K)` / `nth(usize::MAX)`) / `z` (`last()`) or whose end is
+`count` run the model's `intoIterStdOp` / `drainStdOp` — std's provided methods written over the
+model's `next`, with the drops std makes between the calls and the iterator dropped when one of
+them unwinds.  Plain lines (`n` calls of `next`, then drop / forget) go through `Micromap.step`. -/
+def parseStdTake? (t : String) : Option StdTake :=
+  if t == "z" then some .last
+  else if t == "tM" then some (.nth 4000000000)        -- usize::MAX: beyond every length
+  else if t.startsWith "t" then (t.drop 1).toString.toNat?.map .nth
+  else t.toNat?.map .next
+
+def parseStdEnd? (e : String) : Option StdEnd :=
+  match e with | "drop" => some .drop | "forget" => some .forget | "count" => some .count | _ => none
+
+def isStd (t : StdTake) (e : StdEnd) : Bool :=
+  match t, e with
+  | .next _, .drop => false | .next _, .forget => false | _, _ => true
+
+def parseIntoKind? (s : String) : Option IntoKind :=
+  match s with | "pairs" => some .pairs | "keys" => some .keys | "values" => some .values | _ => none
+
+/-- the value tree the harness prints: `[[items], len, (debug,) size_hint (, count)]`, or
+    `[[items], consumed]` after `last()`. -/
+def stdRet {V' : Type} (take : StdTake) (items : List (RV DKey V')) (rem : Nat) (dbg : Option String)
+    (cnt : Option Nat) : RV DKey V' :=
+  match take with
+  | .last => .list [.list items, .tag "consumed"]
+  | _ => .list ([.list items, .nat rem] ++ (dbg.map fun d => [RV.str d]).getD [] ++ [.hint rem (some rem)] ++
+      (cnt.map fun c => [RV.nat c]).getD [])
+
+def stdConsumeStep (E : Env DKey DVal DKey) (sys : Sys DKey DVal DKey) (toks : List String) :
+    Option (Sys DKey DVal DKey × Out DKey DVal DKey) := do
+  let (reg, isDrain, kindS, t, e) ← (match toks with
+    | [reg, "drain", t, e] => some (reg, true, "pairs", t, e)
+    | [reg, "into_iter", kind, t, e] => some (reg, false, kind, t, e)
+    | [reg, "into_iter", t, e] => some (reg, false, "keys", t, e)
+    | _ => none)
+  let take ← parseStdTake? t
+  let fin ← parseStdEnd? e
+  if !isStd take fin then none
+  let kind ← parseIntoKind? kindS
+  let ik : IterKind := match kind with | .pairs => .iter | .keys => .keys | .values => .values
+  let proj {V' : Type} (k : IntoKind) (p : DKey × V') : RV DKey V' :=
+    match k with | .pairs => .pair p.1 p.2 | .keys => .key p.1 | .values => .val p.2
+  match reg with
+  | "m0" | "m1" =>
+    let i := if reg == "m0" then 0 else 1
+    pure (customStep sys [i] [] fun sys0 =>
+      match runOnMap sys0 i (if isDrain then drainStdOp E take fin else intoIterStdOp E kind take fin) with
+      | .ok (items, rem, rest, cnt) s =>
+        .ok (stdRet take (items.map (proj (if isDrain then .pairs else kind))) rem
+          (some (renderRest render (if isDrain then .iter else ik) false rest)) cnt) s
+      | .panic c s => .panic c s
+      | .ub => .ub)
+  | "s0" | "s1" =>
+    let i := if reg == "s0" then 0 else 1
+    pure (customStep sys [] [i] fun sys0 =>
+      match runOnSet sys0 i (if isDrain then drainStdOp E.toUnit take fin else intoIterStdOp E.toUnit .keys take fin) with
+      | .ok (items, rem, _, cnt) s =>
+        .ok (stdRet take (items.map fun p => (RV.key p.1 : RV DKey Unit)) rem none cnt).castU s
+      | .panic c s => .panic c s
+      | .ub => .ub)
+  | "u0" | "u1" =>
+    let i := if reg == "u0" then 0 else 1
+    pure (customStep sys [] [i] fun sys0 =>
+      match runOnSet sys0 i (if isDrain then drainStdOp E.toUnit take fin else intoIterStdOp E.toUnit kind take fin) with
+      | .ok (items, rem, rest, cnt) s =>
+        .ok (stdRet take (items.map (proj (if isDrain then .pairs else kind))) rem
+          (some (renderRest render.toUnit (if isDrain then .iter else ik) false rest)) cnt).castU s
+      | .panic c s => .panic c s
+      | .ub => .ub)
+  | _ => none
+
+
 /-! ### `nth(k)` and `last()` in iterator scripts
 
 Script letters `t<digit>` and `z`.  For the borrowing iterators these are std's provided methods
@@ -732,6 +808,7 @@ partial def loop (profile : Profile) (h : IO.FS.Stream) (out : IO.FS.Stream) (st
       out.putStrLn "bad-case"
       loop profile h out st
   | _ =>
+    let toks0 := toks
     let (toks, sg) := desugar toks
     let (toks, acts) := desugarScript st.sys toks
     let fixActs (o : Out DKey DVal DKey) : Out DKey DVal DKey :=
@@ -740,6 +817,7 @@ partial def loop (profile : Profile) (h : IO.FS.Stream) (out : IO.FS.Stream) (st
       | _, _ => o
     -- operations composed in the driver
     let customOut : Option (Sys DKey DVal DKey × Out DKey DVal DKey) :=
+      if let some r := stdConsumeStep st.env st.sys toks0 then some r else
       match toks with
       | [reg, "alg", "difference_ref", o, script] =>
         match parseSetReg? reg, parseSetReg? o, parseScript? script with
